@@ -763,7 +763,13 @@ impl Kanata {
     pub fn handle_input_event(&mut self, event: &KeyEvent) -> Result<()> {
         log::debug!("process recv ev {event:?}");
         let evc: u16 = event.code.into();
-        self.ticks_since_idle = 0;
+        // A wake-up is not input: the TCP server sends one after every client message, including
+        // requests that change nothing, and a client that polls must not postpone on-idle
+        // actions for as long as it keeps polling. A message that does something makes kanata
+        // non-idle by what it does.
+        if event.value != KeyValue::WakeUp {
+            self.ticks_since_idle = 0;
+        }
         let kbrn_ev = match event.value {
             KeyValue::Press => {
                 if let Some((macro_id, recorded_macro)) = record_press(
